@@ -368,14 +368,24 @@ def expected_at(c, an, x):
     return apply_exact(c['o'], y1, y2), y1, y2, ok1 and ok2
 
 
-def check_value(got, want, exact, scale):
-    """got: float; want: xval"""
+TINY, HUGE = F(1, 10 ** 290), F(10 ** 290)
+
+
+def check_value(got, want, exact, scale, o=None):
+    """got: float; want: xval.  numpy's pow is a vectorised approximation (np.power(3.1875, 1.0) is
+    3.1874999999999996), so powers are compared to 1e-13 relative even in the exact regime"""
     if want[0] == 'unk':
         return True
     if want[0] == 'inf':
         return not math.isfinite(got)
+    if want[0] == 'q' and abs(want[1]) > HUGE:
+        return not math.isfinite(got) or abs(F(got) - want[1]) <= F(TOL) * abs(want[1])
     if not math.isfinite(got):
         return False
+    if want[0] == 'q' and abs(want[1]) < TINY and want[1] != 0:
+        return abs(got) <= float(TINY)
+    if want[0] == 'q' and exact and o == 'pow':
+        return abs(F(got) - want[1]) <= F(1, 10 ** 13) * abs(want[1])
     if want[0] == 'float':
         return abs(got - want[1]) <= TOL * max(abs(want[1]), 1e-300)
     q = want[1]
@@ -446,7 +456,7 @@ def verify_result(c, an, r, what):
         want, y1, y2, ok = expected_at(c, an, xq)
         if not exact and ambiguous(c, an, xq, y1, y2):
             continue
-        if not check_value(r['value'][i], want, exact and ok, vtol(c, an, y1, y2)):
+        if not check_value(r['value'][i], want, exact and ok, vtol(c, an, y1, y2), c['o']):
             return (f'{what}: value[{i}] at wavelength {x} is {r["value"][i]}, expected {c["o"]}({float(y1)}, {float(y2)})'
                     f' from the interpolated/fill values of the operands')
     return None
@@ -550,7 +560,7 @@ def oracle(c, impl):
         return 'value length changed'
     for i, (x, y) in enumerate(zip(v, other)):
         want = apply_exact(c['o'], y, x) if c['refl'] else apply_exact(c['o'], x, y)
-        if not check_value(impl['value'][i], want, True, F(0)):
+        if not check_value(impl['value'][i], want, True, F(0), c['o']):
             return f'value[{i}] = {impl["value"][i]} is not {c["o"]} of {float(x)} and {float(y)}'
     return None
 
@@ -628,7 +638,7 @@ def compare(c, impl, model):
             _, y1, y2, ok = expected_at(c, an, xq)
             if not exact and ambiguous(c, an, xq, y1, y2):
                 continue
-            if not check_value(x, mv, exact and ok, vtol(c, an, y1, y2)):
+            if not check_value(x, mv, exact and ok, vtol(c, an, y1, y2), c['o']):
                 return f'value[{i}]: impl {x} model {mv}'
         return None
     if len(impl['wave']) != len(model['wave']) or len(impl['value']) != len(model['value']):
@@ -637,7 +647,7 @@ def compare(c, impl, model):
         if F(x) != q:
             return f'wave: impl {x} model {float(q)}'
     for i, (x, mv) in enumerate(zip(impl['value'], model['value'])):
-        if not check_value(x, mv, True, F(0)):
+        if not check_value(x, mv, True, F(0), c.get('o')):
             return f'value[{i}]: impl {x} model {mv}'
     return None
 
